@@ -121,6 +121,9 @@ class Harness(object):
         """A call the generator believes valid raised."""
         if op[0] == 'clock' and self.mode == 'C04':
             raise Violation('broker.update(%s) raised %s: %s' % (self.t, type(e).__name__, e))
+        if op[0] == 'clock' and self.mode == 'C15' and self.counts.get('refusals'):
+            raise Violation('after %d refused requests a valid broker.update(%s) raised %s: %s - a refusal left something '
+                            'behind' % (self.counts['refusals'], self.t, type(e).__name__, e))
         self.refused_valid += 1
         self.count('unexpected_refusal_' + op[0])
         if self.mode == 'C15':
@@ -502,6 +505,9 @@ class Harness(object):
         elif kind in ('early_sub', 'early_wd', 'early_txn', 'early_mark'):
             # earlier than the portfolio's clock as the history implies it (creation, transfers, fills)
             et = self.pclock[pid] - pd.Timedelta(minutes=1 if x < 50 else 1440)
+            if int(x * 100) % 2:
+                et = et.tz_convert('Asia/Tokyo')        # the same (earlier) instant, written in another time zone
+                self.flags.add('early_request_in_other_time_zone')
             if kind == 'early_sub':
                 call = lambda: port.subscribe_funds(et, x)
             elif kind == 'early_wd':
@@ -517,7 +523,8 @@ class Harness(object):
             if not port.pos_handler.positions:
                 return
             a = next(iter(port.pos_handler.positions))
-            call = lambda: port.update_market_value_of_asset(a, -max(x, 0.01), max(b.current_dt, port.current_dt))
+            ahead = pd.Timedelta(minutes=45 if int(x * 100) % 2 else 0)      # also future-dated bad ticks
+            call = lambda: port.update_market_value_of_asset(a, -max(x, 0.01), max(b.current_dt, port.current_dt) + ahead)
         elif kind == 'p_neg_sub':
             call = lambda: port.subscribe_funds(port.current_dt, -max(x, 0.01))
         elif kind == 'p_neg_wd':
